@@ -13,6 +13,7 @@ from numpy.lib.mixins import NDArrayOperatorsMixin
 from .._sparse_array import SparseArray
 from .._umath import broadcast_to
 from .._utils import (
+    _index_array,
     _zero_of_dtype,
     can_store,
     check_fill_value,
@@ -257,6 +258,7 @@ class COO(SparseArray, NDArrayOperatorsMixin):  # lgtm [py/missing-equals]
             if not can_store(idx_dtype, max(shape)):
                 raise ValueError(f"cannot cast array with shape {shape} to dtype {idx_dtype}.")
             self.coords = self.coords.astype(idx_dtype)
+        self.coords = _index_array(self.coords)
 
         if self.shape:
             if len(self.data) != self.coords.shape[1]:
